@@ -1143,8 +1143,8 @@ pub fn run(ctx: &mut Ctx) -> Report {
         return rep;
     }
     // every run costs >= ~1.2 s (the tail of finalize) whatever its size, ~1.6 s on the loaded machine:
-    // 48 runs (every (threads, mode) pair once) ~ 80 s, 240 ~ 7 min (several times that on a busy machine)
-    let n = ctx.t(48, 240);
+    // 48 runs (every (threads, mode) pair once) ~ 80 s, 120 in the thorough tier (252 runs took 80 min on the busy machine: most of it is the event-by-event replay of the logs through the Lean model)
+    let n = ctx.t(48, 120);
     let t0 = Instant::now();
     for i in 0..n {
         let case = gen_case(ctx.seed, i, false);
